@@ -6,6 +6,7 @@ package parser
 
 import (
 	"fmt"
+	"sort"
 
 	grammar "github.com/acekingke/yaccgo/Grammar"
 	item "github.com/acekingke/yaccgo/Items"
@@ -127,8 +128,8 @@ func (v *astDeclareVistor) Process(node *Node) {
 		//set other value
 		v.code = n.CodeList
 		v.union = n.Union
-		for key, id := range v.idsymtabl {
-			if id.Value == 0 {
+		for _, key := range sortedIdNames(v.idsymtabl) {
+			if v.idsymtabl[key].Value == 0 {
 				v.idMaxValue++
 				v.idsymtabl[key].Value = v.idMaxValue
 			}
@@ -243,7 +244,8 @@ func (w *Walker) BuildLALR1() *lalr.LALR1 {
 		//1. create symbo
 		index := 1
 		// first move the terminal symbol first
-		for _, id := range v.idsymtabl {
+		for _, key := range sortedIdNames(v.idsymtabl) {
+			id := v.idsymtabl[key]
 			if id.IDTyp == TERMID {
 				terminals = append(terminals, id)
 			}
@@ -369,4 +371,20 @@ func (v *RootVistor) GetCodeCopy() string {
 
 func (v *RootVistor) GetRules(index int) *oneRule {
 	return v.rules[index]
+}
+
+// sortedIdNames returns the keys of the identifier table in a fixed order,
+// so that numbering does not depend on map iteration order.
+func sortedIdNames(tab map[string]*Idendity) []string {
+	names := make([]string, 0, len(tab))
+	for name := range tab {
+		names = append(names, name)
+	}
+	sort.Strings(names)
+	return names
+}
+
+// GetSortedIdNames returns the identifier names in a fixed order.
+func (v *RootVistor) GetSortedIdNames() []string {
+	return sortedIdNames(v.idsymtabl)
 }
